@@ -88,6 +88,7 @@ type call40 struct {
 	accepted  bool // the transaction was started for this call (or it waits for / is the running one)
 	consumed  bool // ... and advanced the owner's seqid
 	expectBad bool
+	lockInOrder bool // client view: successor of the lock-owner's last accepted lock seqid
 	inOrder   bool // client view: successor of the confirmed owner's last accepted seqid, nothing in flight, no nested lock-owner involved
 	opStatus  uint32
 }
@@ -112,6 +113,8 @@ type run40 struct {
 	dirBusy   map[int]int     // directory -> owner of the OPEN parked inside its lock
 	lastLock  map[int]*req40  // lock-owner -> last request that advanced its lock seqid
 	inflight  map[int]*req40  // owner -> request whose transaction is running (OPEN parked)
+	lockOtherOwner map[int]int // lock state ID other (canonical) -> lock-owner
+	otherFile map[int]string  // open state ID other (canonical) -> file handle GETFH returned when it was opened
 	dirty     map[int]bool    // owner -> a request since the last advance failed without advancing (it may have dropped the cache)
 	label     int
 }
@@ -119,7 +122,7 @@ type run40 struct {
 func newRun40(t *testing.T, w *nfsx.World, drv *hx.Driver, out *outcome) *run40 {
 	r := &run40{t: t, w: w, p: w.NewNFS40(), drv: drv, out: out, reqs: map[int]*req40{}, owners: map[string]int{},
 		others: map[[12]byte]int{}, confirmed: map[int]bool{}, lastCons: map[int]*req40{}, touched: map[int]int{},
-		consumed: map[[2]int]*req40{}, lockCons: map[[2]int]*req40{}, dirBusy: map[int]int{}, lastLock: map[int]*req40{}, inflight: map[int]*req40{}, dirty: map[int]bool{}}
+		consumed: map[[2]int]*req40{}, lockCons: map[[2]int]*req40{}, dirBusy: map[int]int{}, lastLock: map[int]*req40{}, inflight: map[int]*req40{}, dirty: map[int]bool{}, otherFile: map[int]string{}, lockOtherOwner: map[int]int{}}
 	for c := 0; c < 2; c++ {
 		id, err := nfsx.Register40(r.p, fmt.Sprintf("client%d", c), 1)
 		if err != nil {
@@ -168,6 +171,14 @@ func (r *run40) other(sid nfsv4.Stateid4) int {
 		r.others[sid.Other] = len(r.others)
 	}
 	return r.others[sid.Other]
+}
+
+// lockSeqOf: the lock seqid the request carried (LOCK with a new/named lock-owner: LQ).
+func (q *req40) lockSeqOf() uint32 {
+	if q.lockTx {
+		return q.seq
+	}
+	return q.lockSeq
 }
 
 func (q *req40) firstReturned() *call40 {
@@ -345,9 +356,8 @@ func (r *run40) build(f []string) (*req40, bool) {
 			}
 			q.kind, q.lockSeq = kLock, uint32(arg(4))
 			q.lockOwn = q.id
-			if k, ok := r.reqs[reuse]; ok && k.kind == kLock && !k.lockTx && k.owner == q.owner && k.client == q.client {
-				// the lock-owner of an earlier LOCK of the same open-owner (sharing one between
-				// open-owners of a file makes CLOSE panic, see notes/findings/C18-…)
+			if k, ok := r.reqs[reuse]; ok && k.kind == kLock && !k.lockTx && k.client == q.client && r.lockOwnerUsable(k.lockOwn, q) {
+				// the lock-owner of an earlier LOCK of the same client
 				q.lockOwn = k.lockOwn
 			}
 			q.args = []nfsv4.NfsArgop4{fh, nfsx.LockNew(lt(7), uint64(arg(5)), uint64(1+arg(6)), q.seq, sid, q.lockSeq, r.clients[q.client], fmt.Sprintf("lo%d", q.lockOwn))}
@@ -356,7 +366,13 @@ func (r *run40) build(f []string) (*req40, bool) {
 		r.out.refs[arg(2)] = true
 		sid, y := r.sidOf(arg(2))
 		if y != nil {
-			q.file, q.client, q.lockOwn = y.file, y.client, y.lockOwn
+			q.file, q.client = y.file, y.client
+		}
+		// the lock-owner is the one the presented lock state ID belongs to (request Y may
+		// have been answered with another LOCK's cached reply)
+		q.lockOwn = -1
+		if lk, ok := r.lockOtherOwner[r.other(sid)]; ok {
+			q.lockOwn = lk
 		}
 		q.lockTx, q.argSid, q.seq = true, sid, uint32(arg(3))
 		fh := nfsx.PutFH(r.w.FileHandles[q.file])
@@ -380,6 +396,22 @@ func (r *run40) build(f []string) (*req40, bool) {
 	return q, true
 }
 
+// lockOwnerUsable: a lock-owner may lock a file through ONE open-owner only
+// (through two it makes CLOSE panic, notes/findings/C18-nfs41-shared-lockowner-close-panics.md,
+// a known C18 finding); different files may belong to different open-owners.
+func (r *run40) lockOwnerUsable(lk int, q *req40) bool {
+	for _, p := range r.reqs {
+		if p.kind == kLock && !p.lockTx && p.lockOwn == lk && p.file == q.file && p.owner != q.owner {
+			// only a LOCK that succeeded associates the lock-owner with the file
+			// (a false retry answered with another LOCK's cached reply does not either)
+			if pc := p.firstReturned(); p.falseOf == nil && (pc == nil || pc.res.Status == 0) {
+				return false
+			}
+		}
+	}
+	return true
+}
+
 func (r *run40) start(q *req40) {
 	c := &call40{id: len(r.calls), req: q, done: make(chan struct{}), label: r.label}
 	r.calls = append(r.calls, c)
@@ -399,7 +431,8 @@ func (r *run40) start(q *req40) {
 			return r.confirmed[q.owner] || (last == x && !r.dirty[q.owner])
 		}
 		cons := r.consumed[k2]
-		if cons != nil && cons != q && first && noEffect(cons) {
+		if cons != nil && cons != q && noEffect(cons) {
+			// (also when q was sent and refused before the other request consumed the seqid)
 			q.falseOf = cons
 			r.out.dropped[c.label] = true
 		} else if cons == q && noEffect(q) {
@@ -429,6 +462,9 @@ func (r *run40) start(q *req40) {
 		}
 	} else if q.lockTx {
 		lk := q.lockOwn
+		if l := r.lastLock[lk]; lk >= 0 && l != nil && first && q.seq == nextSeq40(l.lockSeqOf()) {
+			c.lockInOrder = true
+		}
 		if o := q.firstReturned(); o != nil && !advancingExcluded[uint32(o.res.Status)] {
 			// the lock-owner's seqid was advanced by the original: no effect from now on
 			c.retransOf = o
@@ -576,11 +612,12 @@ func (r *run40) onReturn(c *call40) {
 			r.failMonitor("retransmission (call %d) of request %d returned before the original (call %d) finished", c.id, q.id, o.id)
 		} else if c.fresh && r.lastCons[q.owner] == q {
 			if !bytes.Equal(c.bytes, o.bytes) && bytes.Equal(opBytes(c.res), opBytes(o.res)) && q.kind == kOpen {
-				// the OPEN result is the cached one, but what follows it in the compound differs
-				if r.out.known == "" {
-					r.out.known = fmt.Sprintf("retransmission (call %d) of the compound [PUTFH, OPEN, GETFH] (request %d): OPEN is answered from the cache but GETFH then returns another file handle than in the original reply (the replayed OPEN does not set the current filehandle)", c.id, q.id)
+				// the OPEN result is the cached one, but what follows it in the compound
+				// differs (the defect fixed by 2dc060f; stable signature for this class)
+				if r.out.monitor == "" {
+					r.out.sigClass = knownOpenFHSig
 				}
-				r.out.flags["dup-cached"] = true
+				r.failMonitor("retransmission (call %d) of the compound [PUTFH, OPEN, GETFH] (request %d): OPEN is answered from the cache but GETFH then returns another file handle than in the original reply (the replayed OPEN does not set the current filehandle)", c.id, q.id)
 			} else if !bytes.Equal(c.bytes, o.bytes) {
 				r.failMonitor("retransmission (call %d) of request %d got a reply that differs from the original's (status %d vs %d)", c.id, q.id, st, uint32(o.res.Status))
 			} else {
@@ -610,8 +647,11 @@ func (r *run40) onReturn(c *call40) {
 		}
 		r.out.flags["false-retry-same-type-other-stateid"] = true
 	}
+	if c.lockInOrder && st == 10026 {
+		r.failMonitor("lock request %d carries the successor (%d) of its lock-owner's last accepted lock seqid (%d) and was refused with NFS4ERR_BAD_SEQID", q.id, q.seq, r.lastLock[q.lockOwn].lockSeqOf())
+	}
 	if c.inOrder && st == 10026 {
-		r.failMonitor("request %d carries the successor (%d) of its confirmed open-owner's last accepted seqid and was refused with NFS4ERR_BAD_SEQID: a request that was itself refused must have consumed the seqid (rejected requests must not have side effects)", q.id, q.seq)
+		r.failMonitor("request %d carries the successor (%d) of its confirmed open-owner's last accepted seqid and was refused with NFS4ERR_BAD_SEQID: the in-order request is rejected (the successor is computed wrongly, or a request that was itself refused has consumed the seqid)", q.id, q.seq)
 	}
 	if q.falseOf != nil && (st == 10026) {
 		r.out.flags["false-retry"] = true
@@ -626,11 +666,22 @@ func (r *run40) onReturn(c *call40) {
 	}
 	if c.retransOf == nil && q.falseOf == nil && !advancingExcluded[st] {
 		if q.lockTx {
-			r.lastLock[q.lockOwn] = q
+			if q.lockOwn >= 0 {
+				r.lastLock[q.lockOwn] = q
+			}
 		} else {
 			r.advance(c, st)
-			if q.kind == kLock {
-				r.lastLock[q.lockOwn] = q // the nested lock-owner transaction (probably) advanced its seqid too
+			if q.kind == kLock && st == 0 {
+				if sid, ok := nfsx.ResultStateID(res); ok {
+					if _, seen := r.lockOtherOwner[r.other(sid)]; !seen {
+						r.lockOtherOwner[r.other(sid)] = q.lockOwn
+					}
+				}
+			}
+			if q.kind == kLock && (st == 0 || st == 10010) {
+				// OK / DENIED: the nested lock-owner transaction ran (or replayed the cached
+				// seqid): the lock-owner's last seqid is this request's lock seqid
+				r.lastLock[q.lockOwn] = q
 			}
 		}
 	}
@@ -669,6 +720,40 @@ func (r *run40) advance(c *call40, st uint32) {
 	}
 }
 
+// checkFH compares the current filehandle after the operation (what GETFH
+// behind OPEN returned) with the model's `fh=<state ID other | ->`: the file
+// the model names, or unchanged (= the handle PUTFH set).
+func (r *run40) checkFH(c *call40, fh string, defining bool) {
+	if r.drv == nil || r.out.mismatch != "" || len(c.res.Resarray) != 3 {
+		return
+	}
+	g, ok := c.res.Resarray[2].(*nfsv4.NfsResop4_OP_GETFH)
+	if !ok {
+		return
+	}
+	gok, ok := g.Opgetfh.(*nfsv4.Getfh4res_NFS4_OK)
+	if !ok {
+		return
+	}
+	actual := string(gok.Resok4.Object)
+	name := name40 + " / current filehandle after OPEN (theorem C19.same_reply_compound_40)"
+	fh = strings.TrimPrefix(fh, "fh=")
+	if fh == "-" {
+		if put, ok := c.req.args[0].(*nfsv4.NfsArgop4_OP_PUTFH); ok && actual != string(put.Opputfh.Object) {
+			r.failMismatch(name, "unchanged", "changed", "call %d (request %d): the model leaves the current filehandle alone, GETFH returned another handle", c.id, c.req.id)
+		}
+		return
+	}
+	f := atoi(fh)
+	if known, ok := r.otherFile[f]; ok {
+		if known != actual {
+			r.failMismatch(name, "file of state ID "+fh, "another handle", "call %d (request %d): GETFH behind OPEN does not return the file the model says is current", c.id, c.req.id)
+		}
+	} else if defining {
+		r.otherFile[f] = actual
+	}
+}
+
 func (r *run40) checkReply(c *call40, want string) {
 	op := opRes(c.res)
 	st := opSt(c.res)
@@ -701,7 +786,13 @@ func (r *run40) compareReturn(c *call40) {
 	}
 	switch {
 	case strings.HasPrefix(c.mOut, "reply "):
-		r.checkReply(c, strings.TrimPrefix(c.mOut, "reply "))
+		rf := strings.Fields(strings.TrimPrefix(c.mOut, "reply "))
+		if len(rf) != 2 {
+			r.failMismatch("driver", c.mOut, "", "unparsable reply line")
+			return
+		}
+		r.checkReply(c, rf[0])
+		r.checkFH(c, rf[1], false)
 	case c.mOut == "started":
 		if c.finished {
 			return
@@ -718,14 +809,15 @@ func (r *run40) compareReturn(c *call40) {
 		line := fmt.Sprintf("finish %s %s %d %d %d", c.mOwner, respLine(q.kind, c.res, r, c.id), lockOwn, lockSeq, reached)
 		out := r.ask(line)
 		fs := strings.Fields(out)
-		if len(fs) < 4 || fs[0] != "done" || atoi(fs[1]) != c.id {
+		if len(fs) < 5 || fs[0] != "done" || atoi(fs[1]) != c.id {
 			r.failMismatch(name40, out, "", "model refused %q", line)
 			return
 		}
 		r.checkReply(c, fs[2])
+		r.checkFH(c, fs[3], true)
 		// woken calls retry
-		if len(fs) == 5 {
-			for _, w := range strings.Split(fs[4], ",") {
+		if len(fs) == 6 {
+			for _, w := range strings.Split(fs[5], ",") {
 				wc := r.calls[atoi(w)]
 				wq := wc.req
 				mOwner := wq.owner
